@@ -13,7 +13,7 @@ func init() {
 	register(&Rule{ID: "T8.sizer-terms", Min: 5,
 		Text: "the size walk adds exactly the terms the write walk emits: per function the set of addends flowing into the returned size equals the expected set - string: strHeaderLen + len; struct: fixedLenFieldSize + per variable field (fieldHeaderLen + FixedSize | fieldHeaderLen + string size | fieldHeaderLen + EncodedSizeFunc) + len(unknown holder) + 1 for STOP, nil struct = 1; list: listHeaderLen + Len x FixedSize (wire width, not memory Size) or per element string size / EncodedSizeFunc with stride Size; map: mapHeaderLen + n x K.FixedSize + n x V.FixedSize or per entry key/value sizes through the same reflect iterator, n = maplen as in the writer's header; the sizer views user memory only as *unsafe.Pointer, *sliceHeader, *string, *[]byte; any other addend, return or typed view is undecided",
 		Run:  ruleSizerTerms})
-	register(&Rule{ID: "T8.skip-agreement", Min: 6,
+	register(&Rule{ID: "T8.skip-agreement", Min: 5,
 		Text: "writer (appendStruct) and sizer ((*tType).EncodedSize) skip the same fields: each has exactly the two skip tests, in the same order - CanSkipEncodeIfNil && slot == nil, then CanSkipIfDefault && Equal(Default, slot) on the same field - and no other way to move to the next field without emitting / counting the field header; (*tField).EncodedSize yields a fixed size only when !IsPointer && Spec != Optional && FixedSize > 0 (both skip flags provably false) and fromDefsFields sums exactly those into fixedLenFieldSize and lists the others in varLenFields",
 		Run:  ruleSkipAgreement})
 }
@@ -250,6 +250,9 @@ func ruleSizerTerms(c *Ctx) []Ob {
 			fn = c.SSA[pkgReflect].Func(sp.name)
 		}
 		if fn == nil {
+			if sp.name == "encodedStringSize" {
+				continue // written out at its uses: the terms are checked there
+			}
 			s.bad(sp.name, "-", "size function not found")
 			continue
 		}
@@ -277,6 +280,45 @@ func ruleSizerTerms(c *Ctx) []Ob {
 		want := map[string]bool{}
 		for _, w := range sp.expect(recv) {
 			want[w] = true
+		}
+		// the string size written out (strHeaderLen + len(s)) instead of encodedStringSize(s): read it as the helper's term,
+		// provided the header constant is there - on its own or folded into a constant the function adds anyway
+		if sp.name != "encodedStringSize" {
+			var inl, consts []string
+			for l := range norm {
+				if strings.HasPrefix(l, "len(string at ") {
+					inl = append(inl, l)
+				}
+				if strings.HasPrefix(l, "c:") && !want[l] {
+					consts = append(consts, l)
+				}
+			}
+			hdrSeen := false
+			repl := map[string]string{}
+			for _, l := range consts {
+				var k int64
+				fmt.Sscanf(l, "c:%d", &k)
+				switch {
+				case k == sh:
+					hdrSeen = true
+					repl[l] = ""
+				case want[fmt.Sprintf("c:%d", k-sh)]:
+					hdrSeen = true
+					repl[l] = fmt.Sprintf("c:%d", k-sh)
+				}
+			}
+			if len(inl) > 0 && hdrSeen {
+				for l, r := range repl {
+					delete(norm, l)
+					if r != "" {
+						norm[r] = true
+					}
+				}
+				for _, l := range inl {
+					delete(norm, l)
+					norm["encodedStringSize("+strings.TrimSuffix(strings.TrimPrefix(l, "len(string at "), ")")+")"] = true
+				}
+			}
 		}
 		var missing, extra []string
 		for w := range want {
@@ -455,6 +497,7 @@ func ruleSkipAgreement(c *Ctx) []Ob {
 	s.check(desc(zt) == want, "sizer:skip-tests", c.Pos(z.Pos()), "sizer: "+want, "sizer's skip tests are ["+desc(zt)+"], expected ["+want+"]: EncodedSize would count a field the writer omits, or the reverse")
 	// no other way to the next field without the field header
 	fh, _ := c.constOf(pkgReflect, "fieldHeaderLen")
+	shl, _ := c.constOf(pkgReflect, "strHeaderLen")
 	checkNoOtherSkip := func(fn *ssa.Function, tests []skipTest, isHeader func(b *ssa.BasicBlock) bool, key string) {
 		if len(tests) == 0 {
 			return
@@ -513,11 +556,12 @@ func ruleSkipAgreement(c *Ctx) []Ob {
 		for _, ins := range b.Instrs {
 			if bo, ok := ins.(*ssa.BinOp); ok && bo.Op == token.ADD {
 				for _, op := range []ssa.Value{bo.X, bo.Y} {
-					if v, ok := constInt(op); ok && v == fh {
+					// the field header, on its own or folded with the string length header that follows it
+					if v, ok := constInt(op); ok && (v == fh || v == fh+shl) {
 						return true
 					}
 					if in, ok := op.(*ssa.BinOp); ok && in.Op == token.ADD {
-						if v, ok := constInt(in.X); ok && v == fh {
+						if v, ok := constInt(in.X); ok && (v == fh || v == fh+shl) {
 							return true
 						}
 					}
@@ -597,6 +641,90 @@ func ruleSkipAgreement(c *Ctx) []Ob {
 						}
 					}
 				}
+			}
+		}
+		if !sum || !vl {
+			// the size test of (*tField).EncodedSize written out in the loop: summed exactly under "not a pointer, not optional,
+			// fixed width" with the value fieldHeaderLen + FixedSize, walked per value on every edge where one of the three fails
+			optv, _ := c.constOf(pkgDefs, "Optional")
+			isum, ivl := false, false
+			for _, b := range ff.Blocks {
+				for _, ins := range b.Instrs {
+					st, ok := ins.(*ssa.Store)
+					if !ok {
+						continue
+					}
+					switch path(st.Addr) {
+					case d + ".fixedLenFieldSize":
+						bo, ok := st.Val.(*ssa.BinOp)
+						if !ok || bo.Op != token.ADD {
+							continue
+						}
+						ls := map[string]bool{}
+						var walk func(v ssa.Value)
+						walk = func(v ssa.Value) {
+							if x, ok := v.(*ssa.BinOp); ok && x.Op == token.ADD {
+								walk(x.X)
+								walk(x.Y)
+								return
+							}
+							ls[leafDesc(v)] = true
+						}
+						walk(bo.Y)
+						fld := ""
+						for l := range ls {
+							if strings.HasPrefix(l, "ld:") && strings.HasSuffix(l, ".Type.FixedSize") {
+								fld = strings.TrimSuffix(strings.TrimPrefix(l, "ld:"), ".Type.FixedSize")
+							}
+						}
+						if fld == "" || len(ls) != 2 || !ls[fmt.Sprintf("c:%d", fh)] {
+							continue
+						}
+						notPtr := false
+						for _, cd := range domConds(b) {
+							if _, _, f2, ok := fieldOf(cd.V); ok && f2 == "IsPointer" && !cd.Truth {
+								notPtr = true
+							}
+						}
+						if notPtr && holdsAt(b, fmt.Sprint(optv), "!=", fld+".Spec", descInt) && holdsAt(b, "0", "<", fld+".Type.FixedSize", descInt) {
+							isum = true
+						}
+					case d + ".varLenFields":
+						okPreds, nPreds := true, 0
+						for _, p := range b.Preds {
+							iff, ok := p.Instrs[len(p.Instrs)-1].(*ssa.If)
+							if !ok {
+								okPreds = false
+								continue
+							}
+							nPreds++
+							truth := p.Succs[0] == b
+							fails := false
+							if _, _, f2, ok := fieldOf(iff.Cond); ok && f2 == "IsPointer" && truth {
+								fails = true
+							}
+							if l, op, r, ok := relOf(iff.Cond, truth, descInt); ok {
+								switch {
+								case op == "==" && (strings.HasSuffix(l, ".Spec") && r == fmt.Sprint(optv) || strings.HasSuffix(r, ".Spec") && l == fmt.Sprint(optv)):
+									fails = true
+								case strings.HasSuffix(l, ".Type.FixedSize") && r == "0" && (op == "<=" || op == "==" || op == "<"):
+									fails = true
+								case strings.HasSuffix(r, ".Type.FixedSize") && l == "0" && (op == ">=" || op == "==" || op == ">"):
+									fails = true
+								}
+							}
+							if !fails {
+								okPreds = false
+							}
+						}
+						if okPreds && nPreds > 0 {
+							ivl = true
+						}
+					}
+				}
+			}
+			if isum && ivl {
+				sum, vl = true, true
 			}
 		}
 		s.check(sum && vl, "fromDefsFields:partition", c.Pos(ff.Pos()), "fields with a fixed size are summed, all others are walked per value", "fields are not partitioned into fixedLenFieldSize (n > 0) and varLenFields (otherwise)")
